@@ -385,6 +385,24 @@ func (o Opts) list() []runtime.CSVOpt {
 	return l
 }
 
+// scribbled hands the option list to a constructor and then overwrites the caller's slice with the options of quite
+// another configuration (an application that derives a second codec from the same slice): the codec keeps the options
+// it was constructed with.
+func scribbled[T any](opts []runtime.CSVOpt, construct func(...runtime.CSVOpt) T) T {
+	codec := construct(opts...)
+	for i := range opts {
+		switch i % 3 {
+		case 0:
+			opts[i] = runtime.WithCSVReaderOpts(csv.Reader{Comma: '|', Comment: '!', FieldsPerRecord: 7})
+		case 1:
+			opts[i] = runtime.WithCSVWriterOpts(csv.Writer{Comma: '|', UseCRLF: true})
+		default:
+			opts[i] = runtime.WithCSVSkipLines(5)
+		}
+	}
+	return codec
+}
+
 func (c Case) describe(dir string, kind int) string {
 	names := DestKinds
 	if dir == "produce" {
@@ -585,7 +603,7 @@ func checkConsume(c Case, kind int) *kit.Violation {
 		}
 	}
 
-	consumer := runtime.CSVConsumer(o.list()...)
+	consumer := scribbled(o.list(), runtime.CSVConsumer)
 	if c.Used {
 		if v := kit.Guard("CSVConsumer.Consume (earlier call on the same consumer)", func() {
 			var earlier [][]string
@@ -748,7 +766,7 @@ func checkProduce(c Case, kind int) ([]byte, *kit.Violation) {
 		writer = onlyWriter{snk} // hides Close
 	}
 	var err error
-	producer := runtime.CSVProducer(o.list()...)
+	producer := scribbled(o.list(), runtime.CSVProducer)
 	if c.Used {
 		if v := kit.Guard("CSVProducer.Produce (earlier call on the same producer)", func() {
 			_ = producer.Produce(io.Discard, [][]string{{"w"}})
